@@ -229,7 +229,7 @@ func (eng *Engine) queryText(g *VCGen, o Obligation, lemmaFacts []string) string
 	var b strings.Builder
 	b.WriteString("(set-option :produce-models true)\n(set-logic ALL)\n")
 	b.WriteString(preludeCore)
-	if g.fn == nil {
+	if g.fn == nil || (g.fc != nil && hasProp(g.fc.Props, "nonlinear")) {
 		b.WriteString(mulInterp)
 	} else {
 		b.WriteString(mulUninterp)
